@@ -182,6 +182,10 @@ fn noised(e: &Expr) -> Option<(Option<String>, f64, i64, i64, Option<(f64, f64)>
             let (c, s, u1, u2, _) = noised(core)?;
             Some((c, s, u1, u2, Some((lo, hi))))
         }
+        // a default wrapped around the noisy term (coalesce(x + sigma * gaussian, 0)): the same
+        // mechanism as far as its constants go; whether the noise still reaches every cell is for
+        // the dynamic checks to say
+        F::Coalesce if args.len() == 2 && float_value(&args[1]).is_some() => noised(&args[0]),
         F::Plus if args.len() == 2 => {
             let try_side = |x: &Expr, n: &Expr| -> Option<(Option<String>, f64, i64, i64)> {
                 let (f, a) = func(n)?;
